@@ -192,6 +192,11 @@ def rank_body(cfg, history, W, observe=None, single_union=False, pre_step=None, 
                     p.memory_usage()
             elif kind == 'load':
                 sd = copy.deepcopy(p.state_dict(include_factors=(e[1] if len(e) > 1 else True)))
+                if len(e) > 3 and e[3] == 'negA':
+                    # a checkpoint whose A factors are negative definite (public load_state_dict accepts any factors): with explicit
+                    # inverses the preconditioner becomes indefinite and lr^2 sum <V, D> negative
+                    for fs in sd['layers'].values():
+                        fs['A'] = -2.0 * torch.eye(fs['A'].shape[0], dtype=fs['A'].dtype)
                 # drop the old preconditioner's hooks (generic torch hook tables), then build a fresh one
                 for m in model.modules():
                     m._forward_pre_hooks.clear(); m._backward_hooks.clear()
@@ -201,6 +206,14 @@ def rank_body(cfg, history, W, observe=None, single_union=False, pre_step=None, 
                 if sched is not None:
                     from kfac.scheduler import LambdaParamScheduler
                     sched = LambdaParamScheduler(p, **{k + '_lambda': resolve_callable(v) for k, v in cfg['sched'].items()})
+            elif kind == 'load_nofac':
+                # a checkpoint without factors restored into the live object (step counter and constant hyperparameters only): nothing
+                # can be inverted, so no collective is implied and the call is legal on any subset of the ranks
+                if e[1] is None or rank in e[1]:
+                    import warnings
+                    with warnings.catch_warnings():
+                        warnings.simplefilter('ignore')
+                        p.load_state_dict(copy.deepcopy(p.state_dict(include_factors=False)))
             elif kind == 'reset_batch':
                 p.reset_batch()
             elif kind == 'sched':
